@@ -757,6 +757,9 @@ func checkC08Key(c c08KeyCase) error {
 	if c.Spec.Trim {
 		stats.Class("key/short-coordinates-in-memory")
 	}
+	if c.Spec.TrimD && c.Spec.Kty == 2 && (c.Spec.Private || c.Spec.Shape == 1) {
+		stats.Class("key/short-private-scalar-in-memory")
+	}
 	stats.NTBytes(first, []byte{c.LabelSp})
 	if len(first) < 150 {
 		stats.Sample(fmt.Sprintf("key/kty=%d", c.Spec.Kty), map[string]any{"wire": rc.Hex(first), "label_spelling": c.LabelSp})
